@@ -64,7 +64,7 @@ def confirm(sid, d):
     res = {}
     try:
         sh(["git", "-C", str(REPO), "worktree", "add", "--detach", str(wt), "HEAD", "-q"])
-        env = dict(os.environ, XDG_CACHE_HOME=str(wt) + ".cache", PYTHONPATH=str(wt))     # the scratch checkout's abel, not /repo's
+        env = dict(os.environ, XDG_CACHE_HOME=str(wt) + ".cache", PYTHONPATH=str(wt), OMP_NUM_THREADS="1", OPENBLAS_NUM_THREADS="1")     # the scratch checkout's abel, not /repo's
         res["demo_pristine"] = sh(["/venv/bin/python", str(d / "demo.py")], cwd=wt, timeout=600, env=env)[0]
         code, out = sh(["git", "apply", str(d / "patch.diff")], cwd=wt)
         res["applies"] = code == 0
